@@ -1,6 +1,6 @@
-(** C07 — Whatever the STUN builder emits is bounded and well-formed.  Statements only. *)
+(** C07 — Whatever the STUN builder emits is bounded, well-formed and reads back equal.  Statements only. *)
 From Coq Require Import ZArith List Bool.
-From Nice Require Import Base.Bytes Stun.StunModel Stun.StunProofs1 Stun.StunProofs2 Stun.StunProofs3 Stun.StunAgentModel Stun.SoftwareProofs Gen.Utf8Skip.
+From Nice Require Import Base.Bytes Stun.StunModel Stun.StunProofs1 Stun.StunProofs2 Stun.StunProofs3 Stun.StunAgentModel Stun.SoftwareProofs Stun.ReadBackProofs Gen.Utf8Skip.
 Import ListNotations.
 Local Open Scope Z_scope.
 
@@ -73,3 +73,49 @@ Print Assumptions C07_software_single_byte_whole.
 Example C07_software_multibyte_kept_whole :
   let s := concat (repeat [195; 169] 130) in length (software_cut s) = 256%nat /\ software_cut s = firstn 256 s.
 Proof. exact software_two_byte_chars. Qed.
+
+(** READ-BACK.  One successful append (stun_message_append_bytes, on which every typed appender is built) adds exactly one attribute at
+    the end of what the independent parser sees — earlier attributes keep type, offset and length, the header bytes other than the
+    length field are untouched — and the value bytes in the message are the bytes given. *)
+Theorem C07_append_reads_back : forall c buf ty v L,
+  InProgress (negb (f_no_aligned c)) buf L -> wfb v -> 0 <= ty < 65536 ->
+  let padding := if f_no_aligned c then 0 else stun_padding (len v) in
+  let L' := L + 4 + len v + padding in
+  L' <= len buf -> L' < 65536 ->
+  exists b, append_bytes c buf ty v = Ok (FOk b) /\ len b = len buf /\
+    InProgress (negb (f_no_aligned c)) b L' /\
+    sub b (L + 4) (len v) = v /\
+    (forall i, 0 <= i < L -> i <> 2 -> i <> 3 -> rd b i = rd buf i) /\
+    (forall fuel, L' - 20 <= 4 * Z.of_nat fuel ->
+       attrs_of fuel (negb (f_no_aligned c)) b 20 (L' - 20) =
+       attrs_of fuel (negb (f_no_aligned c)) buf 20 (L - 20) ++ [(swap_oc2007 c ty, L + 4, len_field c buf (len v))]).
+Proof. exact append_bytes_readback. Qed.
+
+(** ... and through the implementation's own lookup (stun_message_find): the appended attribute is what a lookup of its type returns
+    unless an earlier attribute has that type or ends the search (MESSAGE-INTEGRITY / FINGERPRINT), in which case the lookup answers
+    what it answered before; every lookup that found something before finds the same thing afterwards. *)
+Theorem C07_append_then_find : forall c buf ty v L,
+  InProgress (negb (f_no_aligned c)) buf L -> wfb v -> 0 <= ty < 65536 ->
+  let padding := if f_no_aligned c then 0 else stun_padding (len v) in
+  L + 4 + len v + padding <= len buf -> L + 4 + len v + padding < 65536 ->
+  exists b, append_bytes c buf ty v = Ok (FOk b) /\ sub b (L + 4) (len v) = v /\
+    let old := attrs_of (length buf) (negb (f_no_aligned c)) buf 20 (L - 20) in
+    find c buf ty = Ok (first_match (swap_oc2007 c ty) old) /\
+    (forallb (passes (swap_oc2007 c ty)) old = true -> find c b ty = Ok (Some (L + 4, len_field c buf (len v)))) /\
+    (forallb (passes (swap_oc2007 c ty)) old = false -> find c b ty = find c buf ty) /\
+    (forall ty0 x, find c buf ty0 = Ok (Some x) -> find c b ty0 = Ok (Some x)).
+Proof. exact append_then_find. Qed.
+
+Example C07_read_back_nonvacuous :
+  let c := {| cf_compat := RFC5389; f_short_term := true; f_long_term := false; f_use_fpr := false; f_add_software := false;
+              f_ignore_creds := false; f_no_ind_auth := false; f_force_validater := false; f_no_aligned := false; f_consent := false |} in
+  let id := [33;18;164;66;5;6;7;8;9;10;11;12;13;14;15;16] in
+  (b <- init_msg (repeat 238 64) 0 1 id ;;
+   match b with
+   | Some b => r <- append_bytes c b 6 [97; 98; 99] ;;
+     match r with
+     | FOk b1 => r2 <- append_bytes c b1 36 [0; 0; 0; 7] ;;
+       match r2 with FOk b2 => f1 <- find c b2 6 ;; f2 <- find c b2 36 ;; Ok (f1, f2, sub b2 24 3, sub b2 32 4) | _ => Fault end
+     | _ => Fault end
+   | None => Fault end) = Ok (Some (24, 3), Some (32, 4), [97; 98; 99], [0; 0; 0; 7]).
+Proof. vm_compute. reflexivity. Qed.
